@@ -3,7 +3,7 @@
    datagram is delivered before Start -- candidate sockets are not read before the agent is started
    (candidateBase.recvLoop waits for it). *)
 From Coq Require Import ZArith Bool List.
-From Ice Require Import Model.AgentTypes Model.AgentCore Model.AgentObs Model.AgentMonitors Gen.Consts Proofs.AgentC04.
+From Ice Require Import Model.AgentTypes Model.AgentCore Model.AgentObs Model.AgentMonitors Gen.Consts Proofs.AgentC04 Proofs.AgentC04Hist.
 Import ListNotations.
 Local Open Scope Z_scope.
 
@@ -50,6 +50,17 @@ Print Assumptions C04_connected_needs_selection.
 
 Theorem C04_connected_needs_selection_init : forall lu lp, InvSel (init lu lp).
 Proof. exact InvSel_init. Qed.
+
+(* ... hence, with C03's invariant, for EVERY history: an open agent that is Connected or Disconnected has a selected
+   pair, and that pair is listed, validated and nominated *)
+Theorem C04_connected_means_validated_nominated_selection : forall cfg lu lp ops,
+  let s := fst (run cfg lu lp ops) in
+  s_closed s = false ->
+  (s_conn s = ConnectionStateConnected \/ s_conn s = ConnectionStateDisconnected) ->
+  exists id p, s_selected s = Some id /\ In p (s_checklist s) /\ p_id p = id /\
+               p_state p = CandidatePairStateSucceeded /\ p_nominated p = true.
+Proof. exact connected_means_validated_nominated_selection. Qed.
+Print Assumptions C04_connected_means_validated_nominated_selection.
 
 (* Failed is reported only after selection, pairs, transactions and candidates were released *)
 Theorem C04_failed_after_release : forall cfg s,
